@@ -60,7 +60,9 @@ WINDOW_FUNCS = [
 ]
 WINDOW_BOUNDS = ("the loss sale settles on day 100 of 2020 (concrete); every other row settles at a symbolic offset 0..32 "
                  "(quick) / 0..35 (thorough) days before/after it (so 29,30,31 and same-day in both file orders are inside) "
-                 "and trades a symbolic 0..3 days earlier, share counts 1..7 (quick) / 1..15 (thorough), opening balances "
+                 "and trades a symbolic 0..3 days earlier (thorough; the quick tier gives every row one fixed trade date 40 days "
+                 "before the sale, and compiles the cover witnesses of the window harnesses out -- the thorough tier keeps "
+                 "them), share counts 1..7 (quick) / 1..15 (thorough), opening balances "
                  "0..7 / 0..15; the action and affiliate at each index are fixed per harness (shapes listed in "
                  "samples); unwind 5-6")
 WINDOW_OUTSIDE = ("more than 2 neighbours of the sale; more than 3 affiliates; fractional share counts in window rows; "
@@ -540,3 +542,12 @@ HARNESS_DOC.update({
 })
 for _p in ["aab", "aba", "baa", "aaa", "abb", "bab", "bba", "bbb"]:
     HARNESS_DOC["c08_split_by_security_" + _p] = ("split_txs_by_security on 3 rows assigned to securities %s, symbolic sorted dates and increasing read indices" % _p.upper())
+
+# Window harnesses (superficial_loss.rs) compile their cover witnesses out in
+# the quick tier (wcover!, see the harness file): each witness is a separate
+# SAT query over a 7M-variable formula and the first costs 250-550 s.  The
+# thorough tier of the same harnesses keeps them.
+QUICK_NO_COVERS = {"c02_w_buy_sale_buy", "c02_w_otherbuy_sale_sell", "c02_w_regbuy_sale_otherbuy_othersell",
+                   "c02_w_otherbuy_othersell_sale", "c04_lookahead_split_sell_exact_ratio",
+                   "c04_lookahead_split_sell_one_for_three", "c15_w_buy_split_sale", "c15_w_sale_split_buy",
+                   "c15_w_otherbuy_othersplit_sale"}
